@@ -135,7 +135,8 @@ theorem coOk_retire (x : Coro) (o : Outcome) (h : CoOk x) (hs : x.st.mid = true)
   obtain ⟨a1,a2,a3,a4,a5,a6,a7,a8,a9,a10,a11⟩ := h
   cases hx : x.st <;> simp [hx, St.mid] at hs <;> co_tac
 
-theorem inv_init (prog : Nat → List Act) (n : Nat) : Inv (init prog n) := by
+theorem inv_init (prog : Nat → List Act) (n : Nat) (cx : Bool → Nat → Option Nat := fun _ _ => none) :
+    Inv (init prog n cx) := by
   constructor <;> simp [init, coOk_default, St.refs, St.isAw, St.isRes]
 
 /-- replacing the record of coroutine `c` by one with the same binding, neither the old nor the new state being
@@ -1019,24 +1020,29 @@ theorem inv_run (s : State) (ops : List Op) (h : Inv s) : Inv (run s ops) := by
 
 /-! ### final states are absorbing (a destroyed frame is never revived, on any schedule) -/
 
-/-- final states are absorbing -/
+/-- final states are absorbing, and what a finished coroutine produced and whom it was bound to never changes afterwards -/
 def Frozen (x y : Coro) : Prop :=
-  (x.st = St.dropped → y.st = St.dropped) ∧ (x.st = St.done → y.st = St.done)
+  (x.st = St.dropped → y.st = St.dropped)
+  ∧ (x.st = St.done → y.st = St.done ∧ y.outcome = x.outcome ∧ y.bound = x.bound)
 
 def Le (s t : State) : Prop := ∀ c, Frozen (s.co c) (t.co c)
 
-theorem Le.refl (s : State) : Le s s := fun _ => ⟨id, id⟩
+theorem Frozen.same (x : Coro) : Frozen x x := ⟨id, fun h => ⟨h, rfl, rfl⟩⟩
+theorem Le.refl (s : State) : Le s s := fun _ => Frozen.same _
 theorem Le.trans {s t u : State} (a : Le s t) (b : Le t u) : Le s u :=
-  fun c => ⟨fun h => (b c).1 ((a c).1 h), fun h => (b c).2 ((a c).2 h)⟩
+  fun c => ⟨fun h => (b c).1 ((a c).1 h), fun h => by
+    obtain ⟨h1, h2, h3⟩ := (a c).2 h
+    obtain ⟨k1, k2, k3⟩ := (b c).2 h1
+    exact ⟨k1, k2.trans h2, k3.trans h3⟩⟩
 
 theorem le_setCo (s : State) (c : Nat) (x : Coro) (h1 : (s.co c).st ≠ St.dropped) (h2 : (s.co c).st ≠ St.done) :
     Le s (setCo s c x) := by
   intro y; by_cases hy : y = c
   · subst hy; exact ⟨fun h => absurd h h1, fun h => absurd h h2⟩
-  · simp only [setCo, upd_ne _ _ hy]; exact ⟨id, id⟩
+  · simp only [setCo, upd_ne _ _ hy]; exact Frozen.same _
 
-theorem le_setFut (s : State) (f : Nat) (x : Fut) : Le s (setFut s f x) := fun _ => ⟨id, id⟩
-theorem le_newFut (s : State) (o : Option Nat) (w : List Nat) : Le s (newFut s o w) := fun _ => ⟨id, id⟩
+theorem le_setFut (s : State) (f : Nat) (x : Fut) : Le s (setFut s f x) := fun _ => Frozen.same _
+theorem le_newFut (s : State) (o : Option Nat) (w : List Nat) : Le s (newFut s o w) := fun _ => Frozen.same _
 
 theorem le_resolve (s : State) (f : Nat) : Le s (resolve s f) := by
   intro c; constructor <;> intro h <;> simp [resolve, wakeOne, h]
@@ -1343,7 +1349,8 @@ theorem ab_step (s : State) (op : Op) (hi : Inv s) (h : AllBound s) : AllBound (
     · exact h
   | step c => exact ab_stepCo s c hi h
 
-theorem ab_init (prog : Nat → List Act) (n : Nat) : AllBound (init prog n) := by
+theorem ab_init (prog : Nat → List Act) (n : Nat) (cx : Bool → Nat → Option Nat := fun _ _ => none) :
+    AllBound (init prog n cx) := by
   intro f h1 h2; simp [init] at h1 h2; omega
 
 theorem ab_run (s : State) (ops : List Op) (hi : Inv s) (h : AllBound s) : AllBound (run s ops) := by
@@ -1465,7 +1472,8 @@ def FutCb (x : Fut) : Prop :=
 
 def CbInv (s : State) : Prop := ∀ f, FutCb (s.fut f)
 
-theorem cb_init (prog : Nat → List Act) (n : Nat) : CbInv (init prog n) := by
+theorem cb_init (prog : Nat → List Act) (n : Nat) (cx : Bool → Nat → Option Nat := fun _ _ => none) :
+    CbInv (init prog n cx) := by
   intro f; simp [init, FutCb]
 
 theorem cb_setCo (s : State) (c : Nat) (x : Coro) (h : CbInv s) : CbInv (setCo s c x) := h
